@@ -54,6 +54,10 @@ type Runner struct {
 	repo    string
 	harness string
 	ready   bool
+	// Dropped lists harness files (relative to the tree root) to leave out because they do not
+	// compile against this tree (see exec.LoadTolerant).
+	Dropped []string
+	bins    map[string]string // package -> compiled test binary
 }
 
 func NewRunner(repo, harnessDir string) *Runner {
@@ -83,6 +87,37 @@ func (r *Runner) prepare() error {
 	pkgs, err := exec.InstallHarness(r.harness, dir, true)
 	if err != nil {
 		return err
+	}
+	for _, f := range r.Dropped {
+		os.Remove(filepath.Join(dir, f))
+	}
+	// harness files that do not compile against this tree (a refactored source) are left out, as
+	// exec.LoadTolerant does for the symbolic side
+	for round := 0; round < 8; round++ {
+		cmd := osexec.Command("go", "build", "-gcflags=-e", "./...")
+		cmd.Dir = dir
+		cmd.Env = append(os.Environ(), "GOFLAGS=-mod=mod", "GOPROXY=off", "GOSUMDB=off", "GOTOOLCHAIN=local", "GOWORK=off")
+		out, err := cmd.CombinedOutput()
+		if err == nil {
+			break
+		}
+		removed := false
+		for _, line := range strings.Split(string(out), "\n") {
+			i := strings.Index(line, ".go:")
+			if i < 0 {
+				continue
+			}
+			f := strings.TrimSpace(line[:i+3])
+			if base := filepath.Base(f); strings.HasPrefix(base, "zz_vp_") && base != "zz_vp_api.go" {
+				if os.Remove(filepath.Join(dir, f)) == nil {
+					r.Dropped = append(r.Dropped, f)
+					removed = true
+				}
+			}
+		}
+		if !removed {
+			break // the tree itself does not build: the test run below reports it
+		}
 	}
 	for _, rel := range pkgs {
 		pdir := filepath.Join(dir, rel)
@@ -184,40 +219,55 @@ func (r *Runner) prepare() error {
 	return nil
 }
 
-// Run executes the cases natively, grouped by package.
-func (r *Runner) Run(cases []*Case, perPkgTimeout time.Duration) ([]Outcome, error) {
+// Run executes the cases natively: one test binary per package, one fresh process per case (the
+// symbolic executor starts every instance from freshly initialised package state, and so must the
+// replay: process-wide caches would otherwise carry history from one case into the next).
+func (r *Runner) Run(cases []*Case, perCaseTimeout time.Duration) ([]Outcome, error) {
 	if len(cases) == 0 {
 		return nil, nil
 	}
 	if err := r.prepare(); err != nil {
 		return nil, err
 	}
-	byPkg := map[string][]*Case{}
-	var order []string
-	for _, c := range cases {
-		if _, ok := byPkg[c.Pkg]; !ok {
-			order = append(order, c.Pkg)
-		}
-		byPkg[c.Pkg] = append(byPkg[c.Pkg], c)
+	if r.bins == nil {
+		r.bins = map[string]string{}
 	}
-	var out []Outcome
-	for _, pkg := range order {
-		pending := byPkg[pkg]
-		for len(pending) > 0 {
-			res, err := r.runBatch(pkg, pending, perPkgTimeout)
-			if err != nil {
-				return out, err
-			}
-			out = append(out, res...)
-			pending = pending[len(res):]
+	for _, c := range cases {
+		if _, ok := r.bins[c.Pkg]; ok {
+			continue
 		}
+		target := "./" + c.Pkg
+		if c.Pkg == "." || c.Pkg == "" {
+			target = "."
+		}
+		bin := filepath.Join(r.Scratch, fmt.Sprintf("zz_vp_replay_%d.test", len(r.bins)))
+		cmd := osexec.Command("go", "test", "-vet=off", "-c", "-o", bin, target)
+		cmd.Dir = r.Scratch
+		cmd.Env = append(os.Environ(), "GOFLAGS=-mod=mod", "GOPROXY=off", "GOSUMDB=off", "GOTOOLCHAIN=local")
+		if out, err := cmd.CombinedOutput(); err != nil {
+			return nil, fmt.Errorf("native replay of package %s did not build: %v\n%s", c.Pkg, err, lastLines(string(out), 30))
+		}
+		r.bins[c.Pkg] = bin
+	}
+	out := make([]Outcome, len(cases))
+	sem := make(chan struct{}, 8)
+	done := make(chan struct{})
+	for i := range cases {
+		go func(i int) {
+			sem <- struct{}{}
+			out[i] = r.runOne(cases[i], perCaseTimeout)
+			<-sem
+			done <- struct{}{}
+		}(i)
+	}
+	for range cases {
+		<-done
 	}
 	return out, nil
 }
 
-// runBatch runs cases of one package in one test process; if one case hangs
-// the batch is cut there and the caller continues with the rest.
-func (r *Runner) runBatch(pkg string, cases []*Case, timeout time.Duration) ([]Outcome, error) {
+// runOne runs one case in its own process.
+func (r *Runner) runOne(c *Case, timeout time.Duration) Outcome {
 	type jc struct {
 		ID      string                       `json:"id"`
 		Harness string                       `json:"harness"`
@@ -225,72 +275,44 @@ func (r *Runner) runBatch(pkg string, cases []*Case, timeout time.Duration) ([]O
 		Inputs  map[string]uint64            `json:"inputs"`
 		UF      map[string]map[string]uint64 `json:"uf"`
 	}
-	var js []jc
-	for i, c := range cases {
-		js = append(js, jc{fmt.Sprintf("case%d", i), c.Harness, c.Config, c.Inputs, c.UF})
-	}
 	f, err := os.CreateTemp("", "vp-cases-*.json")
 	if err != nil {
-		return nil, err
+		return Outcome{Case: c, Status: "error", Detail: err.Error()}
 	}
 	defer os.Remove(f.Name())
-	json.NewEncoder(f).Encode(js)
+	json.NewEncoder(f).Encode([]jc{{"case0", c.Harness, c.Config, c.Inputs, c.UF}})
 	f.Close()
 	ctx, cancel := context.WithTimeout(context.Background(), timeout)
 	defer cancel()
-	target := "./" + pkg
-	if pkg == "." || pkg == "" {
-		target = "."
+	dir := r.Scratch
+	if c.Pkg != "." && c.Pkg != "" {
+		dir = filepath.Join(r.Scratch, c.Pkg)
 	}
-	cmd := osexec.CommandContext(ctx, "go", "test", "-vet=off", "-count=1", "-timeout", "0", "-run", "^TestVPReplay$", "-v", target)
-	cmd.Dir = r.Scratch
-	cmd.Env = append(os.Environ(), "GOFLAGS=-mod=mod", "GOPROXY=off", "GOSUMDB=off", "GOTOOLCHAIN=local", "VP_REPLAY_CASES="+f.Name())
+	cmd := osexec.CommandContext(ctx, r.bins[c.Pkg], "-test.run", "^TestVPReplay$", "-test.v", "-test.timeout", "0")
+	cmd.Dir = dir
+	cmd.Env = append(os.Environ(), "VP_REPLAY_CASES="+f.Name())
 	var buf bytes.Buffer
 	cmd.Stdout = &buf
 	cmd.Stderr = &buf
-	runErr := cmd.Run()
+	cmd.Run()
 	text := buf.String()
-	var out []Outcome
-	started := -1
 	for _, line := range strings.Split(text, "\n") {
 		line = strings.TrimSpace(line)
-		if strings.HasPrefix(line, "VP-REPLAY-START: case") {
-			fmt.Sscanf(strings.TrimPrefix(line, "VP-REPLAY-START: case"), "%d", &started)
-		}
-		if strings.HasPrefix(line, "VP-REPLAY: case") {
-			rest := strings.TrimPrefix(line, "VP-REPLAY: case")
-			var idx int
-			var status string
-			sp := strings.IndexByte(rest, ' ')
-			if sp < 0 {
-				continue
-			}
-			fmt.Sscanf(rest[:sp], "%d", &idx)
-			status = rest[sp+1:]
-			o := Outcome{Case: cases[idx]}
+		if strings.HasPrefix(line, "VP-REPLAY: case0 ") {
+			status := strings.TrimPrefix(line, "VP-REPLAY: case0 ")
+			o := Outcome{Case: c}
 			fields := strings.SplitN(status, " ", 2)
 			o.Status = fields[0]
 			if len(fields) > 1 {
 				o.Detail = fields[1]
 			}
-			out = append(out, o)
+			return o
 		}
 	}
-	if len(out) < len(cases) {
-		// the process died or hung in case number len(out)
-		if started == len(out) {
-			st := "hang"
-			detail := fmt.Sprintf("no result within %s", timeout)
-			if ctx.Err() == nil {
-				st = "panic"
-				detail = "test process died: " + lastLines(text, 12)
-			}
-			out = append(out, Outcome{Case: cases[len(out)], Status: st, Detail: detail})
-		} else if len(out) == 0 {
-			return nil, fmt.Errorf("native replay of package %s did not run: %v\n%s", pkg, runErr, lastLines(text, 30))
-		}
+	if ctx.Err() != nil {
+		return Outcome{Case: c, Status: "hang", Detail: fmt.Sprintf("no result within %s", timeout)}
 	}
-	return out, nil
+	return Outcome{Case: c, Status: "panic", Detail: "test process died: " + lastLines(text, 12)}
 }
 
 func lastLines(s string, n int) string {
